@@ -16,7 +16,7 @@ try:
             print("PATCH-DOES-NOT-APPLY")
             sys.exit(3)
     t0 = time.time()
-    env = dict(os.environ, COCLS_REPO=wt)
+    env = dict(os.environ, COCLS_REPO=wt, VERIF_EVIDENCE_DIR="/root/scratch/evidence_seeded")
     p = subprocess.run([sys.executable, "/verif/check.py", pid, "--tier", tier], env=env, cwd="/verif",
                        stdout=subprocess.PIPE, stderr=subprocess.PIPE, text=True)
     viol = [l for l in p.stdout.splitlines() if l.startswith("VIOLATION") or l.startswith("KNOWN-FINDING")]
